@@ -41,6 +41,16 @@ CLAIMS = {
             'the body is an arbitrary symbolic string, delimiters are symbolic; the yielded lines and the element/component split are compared with a three-line reference.',
             'Trusted: CrossHair, z3, the Stream/open stubs, the reference splitter. Bodies <= 3 (4) characters; format/re-read round trip over the structural alphabet only (CrossHair mis-models re-splitting a %-formatted symbolic string).',
             'DESIGN.md §5 C01'),
+    'C15': ('other', 'bounded symbolic execution (CrossHair+z3) of element_if.is_valid / composite_if.is_valid on symbolic definitions and values',
+            'An element node with a symbolic definition (usage x data type shards, length bounds, code list, real external code sets with exclusions, pattern, qualifier-selected formats) '
+            'is validated against every short value over an alphabet with one representative per character class; the set of reported codes must equal the set the definition implies.',
+            'Trusted: CrossHair, z3, the 30-line oracle, the stub map root; data-type languages are C13\'s. Values <= 2 (3) characters or boundary tables.',
+            'DESIGN.md §5 C15'),
+    'C19': ('other', 'bounded symbolic execution (CrossHair+z3) of escape_html_chars, error_html.gen_seg and footer over hostile inputs',
+            'escape_html_chars is checked on every string of <= 3 (5) characters (no markup, entity-closed, invertible); gen_seg/footer are run on error nodes built by the real '
+            'err_handler with segment ids, values, delimiters and messages chosen symbolically from hostile tables: outside the fixed template tags no < or > may appear and every message is shown.',
+            'Trusted: CrossHair, z3, the template-tag list. Table-chosen payloads because %-formatting with %i concretises symbolic strings.',
+            'DESIGN.md §5 C19'),
 }
 
 NOT_YET = 'check not built yet in this round (planned: see DESIGN.md §5)'
